@@ -138,3 +138,8 @@ pub fn take_panics() -> Vec<String> {
 pub fn short_loc(s: &str) -> String {
     s.replace("/repo/crates/", "")
 }
+
+/// the Error-level findings of a check run, as text
+pub fn check_errors(res: &rustic_core::CheckResults) -> Vec<String> {
+    res.0.iter().filter(|(l, _)| format!("{l:?}") == "Error").map(|(_, e)| e.to_string()).collect()
+}
